@@ -8,7 +8,7 @@ import "github.com/MixinNetwork/mixin/crypto"
 // harness. Each runs the writer in its own write transaction, committed only when the
 // writer returned nil (the discipline of WriteSnapshot/LoadGenesis).
 
-func (s *BadgerStore) VerifWriteNodePledge(signer, payee crypto.Key, tx crypto.Hash, timestamp uint64) error {
+func (s *BadgerStore) VerifC27WriteNodePledge(signer, payee crypto.Key, tx crypto.Hash, timestamp uint64) error {
 	txn := s.snapshotsDB.NewTransaction(true)
 	defer txn.Discard()
 	err := writeNodePledge(txn, signer, payee, tx, timestamp)
@@ -18,7 +18,7 @@ func (s *BadgerStore) VerifWriteNodePledge(signer, payee crypto.Key, tx crypto.H
 	return txn.Commit()
 }
 
-func (s *BadgerStore) VerifWriteNodeCancel(signer, payee crypto.Key, tx crypto.Hash, timestamp uint64) error {
+func (s *BadgerStore) VerifC27WriteNodeCancel(signer, payee crypto.Key, tx crypto.Hash, timestamp uint64) error {
 	txn := s.snapshotsDB.NewTransaction(true)
 	defer txn.Discard()
 	err := writeNodeCancel(txn, signer, payee, tx, timestamp)
@@ -28,7 +28,7 @@ func (s *BadgerStore) VerifWriteNodeCancel(signer, payee crypto.Key, tx crypto.H
 	return txn.Commit()
 }
 
-func (s *BadgerStore) VerifWriteNodeAccept(signer, payee crypto.Key, tx crypto.Hash, timestamp uint64, genesis bool) error {
+func (s *BadgerStore) VerifC27WriteNodeAccept(signer, payee crypto.Key, tx crypto.Hash, timestamp uint64, genesis bool) error {
 	txn := s.snapshotsDB.NewTransaction(true)
 	defer txn.Discard()
 	err := writeNodeAccept(txn, signer, payee, tx, timestamp, genesis)
@@ -38,7 +38,7 @@ func (s *BadgerStore) VerifWriteNodeAccept(signer, payee crypto.Key, tx crypto.H
 	return txn.Commit()
 }
 
-func (s *BadgerStore) VerifWriteNodeRemove(signer, payee crypto.Key, tx crypto.Hash, timestamp uint64) error {
+func (s *BadgerStore) VerifC27WriteNodeRemove(signer, payee crypto.Key, tx crypto.Hash, timestamp uint64) error {
 	txn := s.snapshotsDB.NewTransaction(true)
 	defer txn.Discard()
 	err := writeNodeRemove(txn, signer, payee, tx, timestamp)
